@@ -45,6 +45,17 @@ type c16World struct {
 	beginOpts   []driver.TxOptions
 	noFail      bool // the driver does not fail (the part of a run that only sets the stage)
 	lastFailed  bool // the most recent driver call failed
+	maySkip     bool // the driver may answer driver.ErrSkip on the connection-level fast path (go-sql-driver/mysql does for a statement with arguments)
+	skipped     bool
+}
+
+// skips decides (symbolically) whether the driver declines the connection-level fast path.
+func (w *c16World) skips() bool {
+	if w.maySkip && !w.noFail && vrt.Bool("driver.skips") {
+		w.skipped = true
+		return true
+	}
+	return false
 }
 
 func (w *c16World) rec(op, query string, args []driver.NamedValue) {
@@ -122,6 +133,9 @@ func (c *c16Conn) BeginTx(ctx context.Context, opts driver.TxOptions) (driver.Tx
 }
 func (c *c16Conn) ExecContext(ctx context.Context, q string, args []driver.NamedValue) (driver.Result, error) {
 	c.w.rec("Exec", q, args)
+	if c.w.skips() {
+		return nil, driver.ErrSkip
+	}
 	if c.w.fails() {
 		return nil, c16Err
 	}
@@ -129,6 +143,9 @@ func (c *c16Conn) ExecContext(ctx context.Context, q string, args []driver.Named
 }
 func (c *c16Conn) QueryContext(ctx context.Context, q string, args []driver.NamedValue) (driver.Rows, error) {
 	c.w.rec("Query", q, args)
+	if c.w.skips() {
+		return nil, driver.ErrSkip
+	}
 	if c.w.fails() {
 		return nil, c16Err
 	}
@@ -233,6 +250,7 @@ func c16Proxy(target *c16Conn) (execer driver.ExecerContext, queryer driver.Quer
 // VerifC16Statement: one statement through each entry point.
 func VerifC16Statement() {
 	w, target := c16Setup()
+	w.maySkip = true
 	execer, queryer, preparer, _, name := c16Proxy(target)
 	q := c16Queries[vrt.Choice("query", len(c16Queries))]
 	args := []driver.NamedValue{{Ordinal: 1, Value: vrt.Int64("arg1")}, {Ordinal: 2, Value: vrt.String("arg2", 2)}}
@@ -304,6 +322,12 @@ func VerifC16Statement() {
 		}
 	}
 	// outcome: exactly what the underlying driver answered
+	if w.skipped {
+		// database/sql recognises driver.ErrSkip by identity and only then falls back to Prepare + Stmt
+		vrt.Reach("stmt/driver-skips-the-fast-path")
+		vrt.Assert(err == driver.ErrSkip, "stmt/skip-answer-reaches-database-sql-unchanged")
+		return
+	}
 	vrt.Assert((err != nil) == w.failed, "stmt/fails-iff-the-driver-failed")
 	if err != nil {
 		vrt.Assert(errors.Is(err, c16Err), "stmt/error-is-the-drivers-error")
